@@ -152,6 +152,11 @@ func (s *ServerDnsListener) closeConnection(u *userConnection) error {
 	s.usersLock.Lock()
 	defer s.usersLock.Unlock()
 
+	if s.connections[u.UserId] != u {
+		// Already retired; the slot may belong to a newer session (even one from the same address)
+		return nil
+	}
+
 	_, err := s.validateAndGetUser(u.UserId, u.remoteAddress)
 	if err == commands.BadUser {
 		// Connection already closed
